@@ -1766,6 +1766,7 @@ package ucfg
 //@ requires rvKind(structVal) == 25
 //@ rvwrites nothing
 //@ ensures [field_of_struct] err == nil && !skip ==> info.value == rvField(structVal, fieldIdx) && rvRootOf(info.value) == rvRootOf(structVal)
+//@ ensures [key] err == nil && !skip ==> isKeyOf(info.name, rtField(rvType(structVal), fieldIdx), old(opts.tag))
 //@ ensures [policy_from_tag] err == nil && !skip && info.tagOptions.cfgHandling != cfgDefaultHandling ==> info.options.configValueHandling == info.tagOptions.cfgHandling
 //@ ensures [policy_inherited] err == nil && !skip && info.tagOptions.cfgHandling == cfgDefaultHandling ==> info.options.configValueHandling == old(opts.configValueHandling)
 
@@ -2150,11 +2151,6 @@ package ucfg
 //@ sweep
 //@ requires rvKind(from) == 21
 
-//@ func normalizeStructInto :: cfg, opts, from -> result
-//@ props C07
-//@ sweep
-//@ requires rvKind(chased(from)) == 25
-
 //@ func validateStruct :: val, opts -> result
 //@ props C07 C04
 //@ sweep
@@ -2186,3 +2182,15 @@ package ucfg
 //@ modifies *
 //@ ensures [length] err == nil ==> typeof(r) == cfgSub && r.(cfgSub).c != nil && len(r.(cfgSub).c.fields.a) == rvLen(v)
 //@ loop 1 invariant 0 <= i && i <= l && len(out) == i && l == rvLen(v) && cfg != nil
+
+// ---------------------------------------------------------------- C06: a struct field is written under the key it is read from
+// isKeyOf(name, f, tagKey): name is the configuration key of struct field f: the name given by its tag (text before
+// the first comma) if there is one, otherwise the lower-cased Go name. Stated once; normalizeStructInto has to write
+// a field under this key (call-site obligation) and accessField has to look it up under this key (postcondition).
+//@ pred isKeyOf(name string, f reflect.StructField, tagKey string) := (splitAt(tagGet(f.Tag, tagKey), ",", 0) != "" && name == splitAt(tagGet(f.Tag, tagKey), ",", 0)) || (splitAt(tagGet(f.Tag, tagKey), ",", 0) == "" && name == lower(f.Name))
+
+//@ func normalizeStructInto :: cfg, opts, from -> result
+//@ props C07 C06
+//@ sweep
+//@ requires rvKind(chased(from)) == 25
+//@ at-call normalizeSetField requires isKeyOf(name, rtField(rvType(caller(v)), caller(i)), entry(opts).tag)
